@@ -477,39 +477,7 @@ Proof.
   inversion Et; subst. split; [rewrite B2; exact A1|]. split; [exact A2|reflexivity].
 Qed.
 
-(* ------------------------------------------------------------------ refutations *)
-
-(* "the end ones being set exactly once however the run ends" *)
-Definition end_stamps_statement : Prop :=
-  forall hooks i o s s' t r,
-    run_op hooks i o s = (s', t, r) -> r <> RCrash -> e_st s = RUNNING -> e_st s' <> RUNNING ->
-    rv_soeor (e_rv s) <> SAbsent -> rv_eoeor (e_rv s) <> SAbsent ->
-    is_set (rv_soeor (e_rv s')) /\ is_set (rv_eoeor (e_rv s')).
-
-(* C10-a: RUNNING, a critical hook of negative weight at before_GO_ERROR fails: GO_ERROR is
-   cancelled before the built-in work, the error watcher forces the state to ERROR *)
-Definition wit_forced_hooks : list hook :=
-  [mkHook 1 HCall (MBefore GO_ERROR, (-1)%Z) (MBefore GO_ERROR, (-1)%Z) true].
-Definition wit_forced_ops : list op :=
-  [mkOp (OEvent START_ACTIVITY) BOk [] [] []; mkOp OForceError BOk [1] [] []].
-
-Definition wit_forced_s1 : est :=
-  fst (run_ops wit_forced_hooks 0 [mkOp (OEvent START_ACTIVITY) BOk [] [] []] (est0 CONFIGURED)).
-Definition wit_forced_res := run_op wit_forced_hooks 1 (mkOp OForceError BOk [1] [] []) wit_forced_s1.
-
-Lemma end_stamps_refuted : ~ end_stamps_statement.
-Proof.
-  intro H.
-  destruct (H wit_forced_hooks 1 (mkOp OForceError BOk [1] [] []) wit_forced_s1
-              (fst (fst wit_forced_res)) (snd (fst wit_forced_res)) (snd wit_forced_res)) as [[a Ha] _].
-  - vm_compute. reflexivity.
-  - vm_compute. discriminate.
-  - vm_compute. reflexivity.
-  - vm_compute. discriminate.
-  - vm_compute. discriminate.
-  - vm_compute. discriminate.
-  - vm_compute in Ha. discriminate.
-Qed.
+(* ------------------------------------------------------------------ refutation *)
 
 (* "... and are gone afterwards": START_ACTIVITY that does not reach RUNNING *)
 Definition failed_start_statement : Prop :=
@@ -542,6 +510,15 @@ Definition mid_run_op (o : op) : Prop :=
   | OLeaveCancel | OTeardown => False
   end.
 
+Lemma force_error_P P s s2 tf : force_error s = (s2, tf) -> stable P -> P (e_rv s) -> sees P tf /\ P (e_rv s2).
+Proof.
+  unfold force_error. intros H St HP.
+  destruct (e_st s); try (inversion H; subst; split; [constructor|exact HP]).
+  pose proof (set_soeor_P P s St HP) as A. destruct (set_soeor_if_empty s) as [s1 d1]. cbn [fst] in A.
+  pose proof (set_eoeor_P P s1 St A) as B. destruct (set_eoeor_if_empty s1) as [s3 d2]. cbn [fst] in B.
+  inversion H; subst. split; [|exact B]. destruct d1, d2; repeat constructor.
+Qed.
+
 Lemma run_op_sees P hooks i o s s' t r :
   run_op hooks i o s = (s', t, r) -> stable P -> mid_run_op o -> P (e_rv s) -> sees P t /\ P (e_rv s').
 Proof.
@@ -551,7 +528,9 @@ Proof.
   - destruct (transition hooks (oracle_of i o) GO_ERROR (o_body o) s) as [[s1 t1] r1] eqn:E.
     destruct (transition_sees_other P _ _ _ _ _ _ _ _ E St ltac:(discriminate) HP) as [A B].
     specialize (B ltac:(discriminate)).
-    destruct r1; inversion H; subst; (split; [exact A|]); try exact B; destruct (e_st s1); exact B.
+    destruct (force_error s1) as [s2 tf] eqn:Ef. destruct (force_error_P P _ _ _ Ef St B) as [A2 B2].
+    destruct r1; inversion H; subst; try (split; [exact A|exact B]);
+      (split; [apply sees_app; assumption|exact B2]).
   - contradiction.
   - contradiction.
 Qed.
@@ -900,14 +879,20 @@ Proof.
         destruct (tr_post_inv _ _ _ _ _ _ Hd Hp Hi) as [A [B|[B1 _]]]; [auto|discriminate].
       - unfold transition in E. rewrite Hd in E. inversion E; subst. split; [exact Hi|apply keep_refl]. }
     destruct P as [[P1 P2] P3].
-    assert (F : invS (proj (match e_st s1 with ERROR => s1 | _ => set_st ERROR s1 end))
-                     (e_st (match e_st s1 with ERROR => s1 | _ => set_st ERROR s1 end)) /\
-                proj (match e_st s1 with ERROR => s1 | _ => set_st ERROR s1 end) = proj s1).
-    { destruct (e_st s1) eqn:Es; cbn; (split; [split; [exact P1|]|reflexivity]);
-        try (intro; discriminate). rewrite Es. discriminate. }
+    destruct (force_error s1) as [s2 tf] eqn:Ef.
+    assert (F : invS (proj s2) (e_st s2) /\ keep (proj s1) (proj s2)).
+    { unfold force_error in Ef. destruct (e_st s1) eqn:Es;
+        try (inversion Ef; subst; cbn [set_st e_st]; change (proj (set_st ERROR s1)) with (proj s1);
+             split; [split; [exact P1|intro; discriminate]|apply keep_refl]).
+      - pose proof (soe_proj s1) as A. destruct (set_soeor_if_empty s1) as [sa d1]. cbn [fst] in A.
+        pose proof (eoe_proj sa) as B. destruct (set_eoeor_if_empty sa) as [sb d2]. cbn [fst] in B.
+        inversion Ef; subst. cbn [set_st e_st]. change (proj (set_st ERROR sb)) with (proj sb). rewrite B, A.
+        destruct (soe_inv _ P1) as (I1 & G1 & K1 & _). destruct (eoe_inv _ I1 G1) as (I2 & K2 & _).
+        split; [split; [exact I2|intro; discriminate]|eapply keep_trans; eassumption].
+      - inversion Ef; subst. split; [split; [exact P1|rewrite Es; intro; discriminate]|apply keep_refl]. }
     destruct F as [F1 F2].
     destruct r1; intro H; inversion H; subst; try (split; [split; assumption|left; exact P3]);
-      (split; [exact F1|left; rewrite F2; exact P3]).
+      (split; [exact F1|left; eapply keep_trans; eassumption]).
   - unfold leave_all. destruct (run_pass hooks (oracle_of i o) (MLeave (e_st s)) wall s) as [[s1 t1] p] eqn:E.
     destruct (run_pass_proj _ _ _ _ _ _ _ _ E) as [R1 S1].
     destruct p; intro H; inversion H; subst; rewrite R1, S1; (split; [exact Hi|left; apply keep_refl]).
@@ -965,3 +950,71 @@ Proof.
   intros H Hop. destruct (run_ops_inv hooks _ _ _ _ _ (invE_est0 init) H) as [A _].
   exact (proj2 (run_op_inv _ _ _ _ _ _ _ A Hop)).
 Qed.
+
+(* ------------------------------------------------------------------ however the run ends *)
+
+Definition not_absent (r : rvars) : Prop := rv_soeor r <> SAbsent /\ rv_eoeor r <> SAbsent.
+Lemma not_absent_stable : stable not_absent.
+Proof. intros r c [A B]. unfold not_absent. cbn. repeat split; auto; discriminate. Qed.
+
+Lemma force_error_end_stamps s s2 tf : force_error s = (s2, tf) -> e_st s = RUNNING -> not_absent (e_rv s) ->
+  is_set (rv_soeor (e_rv s2)) /\ is_set (rv_eoeor (e_rv s2)).
+Proof.
+  unfold force_error. intros H Hs [Ha Hb]. rewrite Hs in H.
+  destruct (set_soeor_set s Ha) as [A1 B1]. destruct (set_soeor_if_empty s) as [sa d1]. cbn [fst] in *.
+  rewrite <- B1 in Hb. destruct (set_eoeor_set sa Hb) as [A2 B2]. destruct (set_eoeor_if_empty sa) as [sb d2]. cbn [fst] in *.
+  inversion H; subst. cbn. split; [rewrite B2; exact A1|exact A2].
+Qed.
+
+(* the former witness of finding C10-a, kept as a regression example *)
+Definition wit_forced_hooks : list hook :=
+  [mkHook 1 HCall (MBefore GO_ERROR, (-1)%Z) (MBefore GO_ERROR, (-1)%Z) true].
+Definition wit_forced_ops : list op :=
+  [mkOp (OEvent START_ACTIVITY) BOk [] [] []; mkOp OForceError BOk [1] [] []].
+Lemma wit_forced_closed :
+  let s := fst (run_ops wit_forced_hooks 0 wit_forced_ops (est0 CONFIGURED)) in
+  e_st s = ERROR /\ rv_soeor (e_rv s) = SSet 3 /\ rv_eoeor (e_rv s) = SSet 4.
+Proof. vm_compute. auto. Qed.
+
+(* C10, "the end ones being set however the run ends": any operation that takes the environment
+   out of RUNNING - STOP_ACTIVITY, GO_ERROR, the forced ERROR after a failed GO_ERROR, teardown -
+   leaves both end stamps set *)
+Lemma end_stamps_however hooks i o s s' t r :
+  run_op hooks i o s = (s', t, r) -> r <> RCrash -> e_st s = RUNNING -> e_st s' <> RUNNING ->
+  rv_soeor (e_rv s) <> SAbsent -> rv_eoeor (e_rv s) <> SAbsent ->
+  is_set (rv_soeor (e_rv s')) /\ is_set (rv_eoeor (e_rv s')).
+Proof.
+  intros H Hr Hs Hs' Ha Hb. pose proof H as H0. unfold run_op in H.
+  destruct (o_kind o) as [e| | | |] eqn:Ek.
+  - destruct (dst_of e (e_st s)) as [d|] eqn:Hd.
+    + assert (He : ending e).
+      { rewrite Hs in Hd. destruct e; try discriminate; [left|right]; reflexivity. }
+      eapply end_stamps_set; eauto. rewrite Hs. exact Hs'.
+    + unfold transition in H. rewrite Hd in H. inversion H; subst. contradiction.
+  - inversion H; subst. contradiction.
+  - destruct (transition hooks (oracle_of i o) GO_ERROR (o_body o) s) as [[s1 t1] r1] eqn:E.
+    assert (Hd : dst_of GO_ERROR (e_st s) = Some ERROR) by (rewrite Hs; reflexivity).
+    assert (Hr1 : r1 <> RCrash) by (eapply transition_nocrash; exact E).
+    destruct (st_eqb (e_st s1) RUNNING) eqn:Es1.
+    + (* GO_ERROR did not change the state: forced *)
+      apply st_eqb_spec in Es1.
+      destruct (transition_sees_other not_absent _ _ _ _ _ _ _ _ E not_absent_stable ltac:(discriminate) (conj Ha Hb)) as [_ Pn].
+      specialize (Pn ltac:(discriminate)).
+      destruct (force_error s1) as [s2 tf] eqn:Ef.
+      pose proof (force_error_end_stamps _ _ _ Ef Es1 Pn) as Q.
+      destruct r1; inversion H; subst; try exact Q; try contradiction.
+    + (* GO_ERROR completed *)
+      assert (Hne : e_st s1 <> e_st s).
+      { rewrite Hs. intro Hx. rewrite Hx in Es1. discriminate. }
+      pose proof (end_stamps_set _ _ _ _ _ _ _ _ _ (or_intror eq_refl) E Hd Hr1 Hne Ha Hb) as Q.
+      assert (Hst : e_st s1 = ERROR).
+      { pose proof (transition_post _ _ _ _ _ _ _ _ _ E Hd) as Hp. inversion Hp; try (exfalso; apply Hne; congruence). congruence. }
+      destruct (force_error s1) as [s2 tf] eqn:Ef.
+      assert (Hf : e_rv s2 = e_rv s1) by (unfold force_error in Ef; rewrite Hst in Ef; inversion Ef; reflexivity).
+      destruct r1; inversion H; subst; try exact Q; try contradiction; rewrite Hf; exact Q.
+  - unfold leave_all in H. destruct (run_pass hooks (oracle_of i o) (MLeave (e_st s)) wall s) as [[s1 t1] p] eqn:E.
+    destruct (run_pass_proj _ _ _ _ _ _ _ _ E) as [_ S1].
+    destruct p; inversion H; subst; try contradiction; rewrite S1 in Hs'; contradiction.
+  - destruct (teardown_end_stamps _ _ _ _ _ _ _ Ek H0 Hr Hs Ha Hb) as (A & B & _). auto.
+Qed.
+
